@@ -116,6 +116,55 @@ def main():
                 if rr.timeout: ctx.violation('hang:%s:%s' % (oc, who), tag, files)
                 elif (rr.out != ref.out or (rr.rc == 0) != (ref.rc == 0)) and not (f0 and f1):
                     ctx.violation('behaviour-differs:%s:%s' % (oc, who), '%s with %s: %r/%s, default options %r/%s' % (pr['name'], tag, rr.out[-120:], rr.cause, ref.out[-120:], ref.cause), files)
+    # ------------------------------------------------ adversarial names: equal hash prefix and equal truncated tail
+    def str_hash(t):
+        h = 0
+        for ch in t.encode('latin-1'):
+            h ^= (h << 8); h += ch + 200041; h &= 0x3FFFFFFF
+        return h
+    def b36(n):
+        d = '0123456789ABCDEFGHIJKLMNOPQRSTUVWXYZ'; r = ''
+        while n: r = d[n % 36] + r; n //= 36
+        return r
+    LIBU = '#include "aldor"\nmacro MI == MachineInteger;\nimport from MI;\n%s\n'
+    PREFIX = 'zqCollidingIdentifierWithALongSharedPrefix'
+    dcol = ctx.tmp('collide')
+    open(os.path.join(dcol, 'zqcl.as'), 'w').write(LIBU % ('%sprobe(x: MI): MI == x + 1;' % PREFIX))
+    pp = routes.aldor(b, ['-Q1', '-Mno-warnings', '-Fc', '-Ffm', '-Fao', 'zqcl.as'], dcol, timeout=120)
+    collision = None
+    if pp.rc == 0:
+        fm = open(os.path.join(dcol, 'zqcl.fm'), encoding='latin-1').read(); cc = open(os.path.join(dcol, 'zqcl.c'), encoding='latin-1').read()
+        m = re.search(r'"(zqcl_%sprobe_(\d+))"' % PREFIX, fm)
+        if m:
+            gname, th = m.group(1), m.group(2)
+            mine = 'G_%s_' % b36(str_hash(gname) % 0x39AA3F9)
+            if mine not in cc:
+                ctx.violation('hash-model-mismatch', 'the re-implemented name hash gives %s for %s, which the emitted C does not contain' % (mine, gname), {'zqcl.c': cc[:100000]})
+            else:
+                seen = {}; rr = random.Random('collide')
+                for k in range(400000):
+                    suf = ''.join(rr.choice('abcdefghijklmnopqrstuvwxyz') for _ in range(6))
+                    hv = str_hash('zqcl_%s%s_%s' % (PREFIX, suf, th)) % 0x39AA3F9
+                    if hv in seen and seen[hv] != suf: collision = (seen[hv], suf, k + 1); break
+                    seen[hv] = suf
+    if collision:
+        a_, b_, tries = collision
+        lib = LIBU % ('%s%s(x: MI): MI == x + 10;\n%s%s(x: MI): MI == x + 20;' % (PREFIX, a_, PREFIX, b_))
+        cl = '#include "aldor"\n#include "aldorio"\n#library ZqCl "zqcl.ao"\nimport from ZqCl;\nmacro MI == MachineInteger;\nimport from MI;\nstdout << %s%s(1) << " " << %s%s(2) << newline;\n' % (PREFIX, a_, PREFIX, b_)
+        d2 = ctx.tmp('collide2')
+        open(os.path.join(d2, 'zqcl.as'), 'w').write(lib); open(os.path.join(d2, 'client.as'), 'w').write(cl)
+        p1 = routes.aldor(b, ['-Q1', '-Mno-warnings', '-Fao', '-Fc', 'zqcl.as'], d2, timeout=120)
+        ri = routes.interp_src(b, d2, 'client.as', ['-Q1'])
+        p2 = routes.aldor(b, ['-Q1', '-Mno-warnings', '-Fc', '-Fmain', 'client.as'], d2, timeout=120)
+        gg = run(['gcc', '-w', '-O0', '-I' + b.S, 'client.c', 'client-aldormain.c', 'zqcl.c'] + b.link_libs('aldor') + ['-o', os.path.join(d2, 'cl.exe')], cwd=d2, timeout=300)
+        rc_ = routes.run_exe(os.path.join(d2, 'cl.exe'), d2) if gg.rc == 0 else gg
+        n += 1
+        cnames = re.findall(r'fiExportGlobal\(\s*"([^"]+)"', open(os.path.join(d2, 'zqcl.c'), encoding='latin-1').read()) if p1.rc == 0 else []
+        dup = len(cnames) != len(set(cnames))
+        if gg.rc != 0 or rc_.out != ri.out or dup:
+            ctx.violation('idhash-collision', 'exports %s%s and %s%s (found after %d candidates) have the same 26-bit name hash and the same first 22 characters: %s; interpreter prints %r, C route %r' %
+                          (PREFIX, a_, PREFIX, b_, tries, 'both receive one C global name' if dup else 'distinct names', ri.out, rc_.out if gg.rc == 0 else 'link failed'),
+                          {'zqcl.as': lib, 'client.as': cl})
     ctx.sample({'program': progs[0]['name'], 'option_sets': [' '.join([a, '-Csmax=%d' % s_, l]) for a, s_, l in OPTS[:4]], 'idlen': IDL})
     ctx.assumptions += ['-Cold is compiled with gcc -std=gnu89, -Cstandard with -std=gnu99, both with -Werror=implicit-function-declaration',
                         'identifier lengths other than the default are compiled but not linked: the shipped runtime was generated with the default length (recorded finding C16 idlen!=30:shipped-runtime)']
